@@ -108,7 +108,7 @@ Definition seq_clauses (o : sop) (ob sp : list nat) : list string :=
   (if Nat.eqb (nth0 ob 0) 0 && Nat.eqb (nth0 ob 4) 0 then [] else ["no_call_raises_or_hangs"]) ++
   (if Nat.eqb (nth0 ob 1) (nth0 sp 1) && Nat.eqb (nth0 ob 2) (nth0 sp 2) then []
    else match o with
-        | SStop | SStopBusy => ["stop_releases"]
+        | SStop | SStopBusy | SStopOpenConn => ["stop_releases"]
         | SStart => ["start_brings_up"]
         | SStartFail | SStartThreadFail => ["failed_start_leaves_state"]
         | _ => ["state_stable_between_calls"]
@@ -172,7 +172,7 @@ Definition validb : case -> bool := validb_f explore_fuel.
 
 (* ---------- sx ---------- *)
 Definition asSop (x : sx) : option sop :=
-  match x with I 0%Z => Some SStart | I 1%Z => Some SStop | I 2%Z => Some SRequest | I 3%Z => Some STick | I 4%Z => Some SStopBusy | I 5%Z => Some SStartFail | I 6%Z => Some SStartThreadFail | _ => None end.
+  match x with I 0%Z => Some SStart | I 1%Z => Some SStop | I 2%Z => Some SRequest | I 3%Z => Some STick | I 4%Z => Some SStopBusy | I 5%Z => Some SStartFail | I 6%Z => Some SStartThreadFail | I 7%Z => Some SStopOpenConn | _ => None end.
 Definition asSrv (x : sx) : option srv := match x with I 0%Z => Some Tftp | I 1%Z => Some Http | _ => None end.
 Definition asHres (x : sx) : option handler_res :=
   match x with I 0%Z => Some HFile | I 1%Z => Some HTftpError | I 2%Z => Some HException | _ => None end.
